@@ -18,7 +18,7 @@ Theorem c11_sites :
   Forall (fun s => In s [(1, 368, 488); (2, 272, 296); (2, 368, 402); (3, 368, 420)]%N) depuncture_sites /\
   Forall (fun s => In s [(1, 488, 368); (2, 296, 272); (2, 402, 368); (3, 420, 368)]%N) puncture_sites /\
   Forall (fun s => In s [(1, 61, 46); (2, 37, 34)]%N) puncture_bytes_sites.
-Proof. exact sites_lemma. Qed.
+Proof. exact puncture_sites_lemma. Qed.
 Print Assumptions c11_sites.
 
 (** * puncture *)
@@ -89,7 +89,7 @@ Theorem c11_depuncture_defines_all : forall (p : list N) (OUT : nat) (x prev : l
 Proof. exact depuncture_spec. Qed.
 Print Assumptions c11_depuncture_defines_all.
 
-(** hence no dependence on the reused buffer, in each geometry of the decoder, with the returned erasure counts *)
+(** hence no dependence on the reused buffer, in each geometry of the decoder, with the returned erasure mask_counts *)
 Theorem c11_depuncture_geometries : forall x prev : list Z,
   (length x = 368 -> length prev = 488 -> depuncture_lsf x prev = (spread 0%Z (mask P1 488) x, 120)) /\
   (length x = 272 -> length prev = 296 -> depuncture_stream x prev = (spread 0%Z (mask P2 296) x, 24)) /\
